@@ -103,7 +103,8 @@ type world struct {
 	cur      *node
 	rt       *router.Router
 	dbPath   string
-	dirty    bool // the membership table differs from "everybody active"
+	stmts    *cluster.VerifC29Stmts
+	dirty    map[int]bool // nodes whose membership row differs from the initial one
 	shutdown bool // end of a history: release blocked senders
 	mainTid  int
 
@@ -182,19 +183,8 @@ func newWorld(n int) *world {
 	}
 
 	w.cur = nil
-	w.dirty = true
-	w.resetTable()
 
-	http.DefaultTransport = transport{}
-
-	return w
-}
-
-func (w *world) resetTable() {
-	if !w.dirty {
-		return
-	}
-
+	// the initial table: everybody active, written by the real upsertMember
 	if err := cluster.VerifC29WipeTable(w.nodes[1].cl.DB); err != nil {
 		report.Fatal("wipe membership table: %v", err)
 	}
@@ -205,12 +195,35 @@ func (w *world) resetTable() {
 		}
 	}
 
-	w.dirty = false
+	if w.stmts, err = cluster.VerifC29Prepare(w.nodes[1].cl.DB); err != nil {
+		report.Fatal("prepare: %v", err)
+	}
+
+	w.dirty = map[int]bool{}
+
+	if got := w.listed(); len(got) != n {
+		report.Fatal("initial membership table lists %v", got)
+	}
+
+	http.DefaultTransport = transport{}
+
+	return w
+}
+
+// resetTable restores the rows of the nodes that left in the last history.
+func (w *world) resetTable() {
+	for i := range w.dirty {
+		if err := w.stmts.VerifC29Restore(w.nodes[i].cl); err != nil {
+			report.Fatal("restore the row of node %d: %v", i, err)
+		}
+
+		delete(w.dirty, i)
+	}
 }
 
 // listed returns the nodes whose row says "active", read through node 1's handle.
 func (w *world) listed() map[int]bool {
-	tab, err := cluster.VerifC29Table(w.nodes[1].cl.DB)
+	tab, err := w.stmts.VerifC29Table()
 	if err != nil {
 		report.Fatal("read membership table: %v", err)
 	}
